@@ -5,6 +5,9 @@ updated in place (caches keyed on object identity / storage / version, results a
 For every (op, type): r1 = f(X); the caller scribbles over r1 in place; f(X) again must still be the value;
 X is then updated in place to new values (copy_, add_, indexed assignment); f(X) must equal f(fresh tensor with
 those values).  Compared within 8 eps (same shapes, same kernels: bitwise in practice)."""
+import copy
+import pickle
+
 import numpy as np
 import torch
 import pypose as pp
@@ -79,9 +82,83 @@ def _make(kind, rng, shape, dtype):
     return torch.as_tensor(rng.standard_normal(tuple(shape) + (d,))).to(dtype)
 
 
+def _special(kind, shape, dtype):
+    """The neutral operand: the zero vector of an algebra / the identity of a group / zero points."""
+    if kind in lie.GRPS:
+        v = torch.zeros(tuple(shape) + (L.GRP[kind],), dtype=dtype)
+        v[..., 6 if kind in ("SE3", "Sim3") else 3] = 1.0
+        if kind in ("RxSO3", "Sim3"):
+            v[..., -1] = 1.0
+        return v
+    d = L.ALG[kind] if kind in lie.ALGS else (3 if kind == "P3" else 4)
+    return torch.zeros(tuple(shape) + (d,), dtype=dtype)
+
+
+CTORS = {"SO3": "identity_SO3", "SE3": "identity_SE3", "RxSO3": "identity_RxSO3", "Sim3": "identity_Sim3",
+         "so3": "identity_so3", "se3": "identity_se3", "rxso3": "identity_rxso3", "sim3": "identity_sim3"}
+
+
+def neutral_operand_history(ck, prop):
+    """Results computed from the neutral operand (zero vector / identity element) and freshly constructed identities are the
+    caller's like any other: after the caller edited one in place, the same call returns the value again (nothing shared / cached)."""
+    rng = ck.rng("neutral")
+    for dn in ("f64", "f32"):
+        dtype = lie.DT[dn]
+        u = lie.u_of(dtype)
+        for (name, kx, kaux, f) in ops_for(prop):
+            for shape in ((), (1,), (2,), (2, 3)):
+                X = _fresh(kx, _special(kx, shape, dtype))
+                aux = _aux_for(kaux, rng, shape, dtype)
+                wit = {"op": name, "dtype": dn, "lshape": list(shape), "operand": "neutral element"}
+                regime = f"{name}/{dn}/neutral"
+                ok, r1 = ck.call("history", regime, name, f, X, aux, witness=wit)
+                if not ok:
+                    continue
+                c1 = _vals(r1)
+                ck.count("history", regime, key=(name, dn, tuple(shape), "neutral"))
+                r1t = _plain(r1)
+                Xt = _plain(X)
+                if isinstance(r1t, torch.Tensor) and r1t.numel() and r1t.untyped_storage().data_ptr() == Xt.untyped_storage().data_ptr():
+                    continue                     # documented views of the operand (accessors)
+                try:
+                    done = _scribble(r1)
+                except RuntimeError:
+                    done = False                 # an expanded result cannot be written through
+                if done:
+                    ok, r2 = ck.call("history", regime, name, f, _fresh(kx, _special(kx, shape, dtype)), aux, witness=wit)
+                    if ok:
+                        ck.ratio("history", regime, _close(_vals(r2), c1, u), 1.0, name,
+                                 "result_depends_on_what_the_caller_did_to_an_earlier_result", wit)
+                    ck.mark("history/neutral-operand")
+        if prop == "C03":
+            for kind, ctor in CTORS.items():
+                for lsize in ((), (1,), (2,), (1, 1)):
+                    make = lambda: getattr(pp, ctor)(*lsize, dtype=dtype)
+                    wit = {"constructor": ctor, "lsize": list(lsize), "dtype": dn}
+                    regime = f"{ctor}/{dn}"
+                    ok, a = ck.call("history", regime, ctor, make, witness=wit)
+                    if not ok:
+                        continue
+                    want = _special(kind, lsize, dtype)
+                    ck.check(tuple(a.shape) == tuple(want.shape) and torch.equal(_vals(a), want), "history", regime, ctor, "constructor_is_not_the_neutral_element", wit)
+                    with torch.no_grad():
+                        _plain(a).mul_(0.5).add_(0.25)            # the caller moves the element it was given
+                    ok, b = ck.call("history", regime, ctor, make, witness=wit)
+                    ck.count("history", regime, key=(ctor, dn, lsize))
+                    if ok:
+                        ck.check(tuple(b.shape) == tuple(want.shape) and torch.equal(_vals(b), want), "history", regime, ctor,
+                                 "constructor_returns_an_element_edited_by_an_earlier_caller", wit)
+                    ok, c = ck.call("history", regime, ctor + "/identity_like", lambda: pp.identity_like(a), witness=wit)
+                    if ok:
+                        ck.check(torch.equal(_vals(c), want.to(c.dtype)), "history", regime, "identity_like", "constructor_returns_an_element_edited_by_an_earlier_caller", wit)
+                    ck.mark("history/constructors")
+    ck.require("history/neutral-operand")
+
+
 def run(ck, prop, reps=2):
     cross_talk(ck, prop)          # first: nothing of this worker has been through a backward yet
     grad_mode_history(ck, prop)
+    neutral_operand_history(ck, prop)
     rng = ck.rng("history")
     turn = 0
     for rep in range(reps):
@@ -151,7 +228,7 @@ def run(ck, prop, reps=2):
         u = lie.u_of(dtype)
         for (name, kx, kaux, f) in ops_for(prop):
             for lay in ("strided-batch", "strided-last", "expanded", "transposed", "requires_grad", "aux_requires_grad", "both_require_grad",
-                        "no_grad", "parameter"):
+                        "no_grad", "parameter", "deepcopy", "pickle", "aux_deepcopy", "aux_pickle"):
                 shape = (3,) if lay != "transposed" else (2, 3)
                 v = _make(kx, rng, shape, dtype)
                 d = v.shape[-1]
@@ -176,7 +253,7 @@ def run(ck, prop, reps=2):
                 strided = lay in ("strided-batch", "strided-last", "expanded", "transposed")
                 if strided and view.is_contiguous() and lay != "expanded":
                     continue
-                if lay in ("aux_requires_grad", "both_require_grad") and kaux is None:
+                if lay in ("aux_requires_grad", "both_require_grad", "aux_deepcopy", "aux_pickle") and kaux is None:
                     continue
                 aux = None if kaux is None else (_fresh(kaux, _make(kaux, rng, shape, dtype)) if kaux in lie.LT else _make(kaux, rng, shape, dtype))
                 aux_plain = aux
@@ -186,6 +263,15 @@ def run(ck, prop, reps=2):
                 Xv = pp.LieTensor(view, ltype=lie.LT[kx]) if kx != "R" else view
                 if lay == "parameter":
                     Xv = pp.Parameter(Xv) if kx != "R" else torch.nn.Parameter(Xv)
+                # object lifecycle: an operand that went through copy.deepcopy / pickle is the same element
+                if lay == "deepcopy":
+                    Xv = copy.deepcopy(Xv)
+                elif lay == "pickle":
+                    Xv = pickle.loads(pickle.dumps(Xv))
+                elif lay == "aux_deepcopy":
+                    aux = copy.deepcopy(aux)
+                elif lay == "aux_pickle":
+                    aux = pickle.loads(pickle.dumps(aux))
                 regime = f"{name}/{dn}/layout:{lay}"
                 wit = {"op": name, "dtype": dn, "layout": lay}
                 if lay == "no_grad":
@@ -228,7 +314,7 @@ def run(ck, prop, reps=2):
                          {"layout": lay, "dtype": dn, "base_after": now.tolist()})
                 ck.mark("layout/identity_/" + lay)
         ck.require("layout/identity_/transposed", "layout/identity_/column-slice")
-    ck.require("history/data", "history/numpy", "layout/no_grad", "layout/parameter")
+    ck.require("history/data", "history/numpy", "layout/no_grad", "layout/parameter", "layout/deepcopy", "layout/pickle")
     if prop in ("C03", "C05"):
         ck.require("layout/aux_requires_grad", "layout/both_require_grad")
     ck.require("history/copy_", "history/index", "history/retract", "layout/strided-batch", "layout/strided-last", "layout/expanded",
